@@ -4,5 +4,5 @@ set -e
 cd "$(dirname "$0")"
 coqc -Q ../coq Lospan ../coq/Extract.v >/dev/null
 rm -f ../coq/Extract.vo ../coq/Extract.glob ../coq/.Extract.aux ../coq/Extract.vok ../coq/Extract.vos
-ocamlfind ocamlopt -O2 -w -a -package str -linkpkg lospan_model.mli lospan_model.ml util.ml hist.ml judge.ml gwsuite.ml suites.ml driver.ml -o driver 2>&1 | grep -v "^$" || true
+ocamlfind ocamlopt -O2 -w -a -package str -linkpkg lospan_model.mli lospan_model.ml util.ml hist.ml judge.ml gwsuite.ml regsuite.ml suites.ml driver.ml -o driver 2>&1 | grep -v "^$" || true
 test -x driver
